@@ -7,7 +7,7 @@ from gen import httpmsggen as G
 from ref import httpstrict as S
 
 PROP = "C30"
-SIZES = dict(quick=(1, 640), thorough=(60, 640))            # (batches, configurations per batch); ~5.5 requests each
+SIZES = dict(quick=(1, 640), thorough=(50, 640))            # (batches, configurations per batch); ~5.5 requests each
 DEFAULT_ALLOWED = 1 | 2 | 4 | 8 | 16                        # documented: GET, POST, HEAD, PUT, DELETE
 RULE = ("random server configurations (0-4 virtual hosts up to 2 levels, aliases, '*' patterns, 0-6 registered paths per host incl. "
         "prefixes of each other and paths with %,?,+,space,8-bit; allowed-method masks incl. extension methods) x 3-8 requests whose "
@@ -219,9 +219,10 @@ def run(tier, seed):
     vlib.build("asan", ["h_httpmsg"])
     nb, per = SIZES[tier]
     st = {}
-    seenkeys = {}
+    conf = G.Confirmer(res, PROP, judge)
     total = 0
     for b in range(nb):
+        found = []
         r = random.Random((seed * 1000003 + b) * 31 + 30)
         cases = [G.gen_c30(r, b * per + i, tier == "thorough") for i in range(per)]
         traces = G.run_batch(res, PROP, cases, b)
@@ -238,13 +239,12 @@ def run(tier, seed):
             if census and census[0][1] != "0":
                 v.append(("%s:leak-at-case-end" % PROP, "memfault census: %s blocks live after teardown" % census[0][1]))
             for key, text in v:
-                if seenkeys.get(key, 0) < 3:
-                    seenkeys[key] = seenkeys.get(key, 0) + 1
-                    res.add_viol(key, text + " | case %d" % cs_.id,
-                                 dict(flavor="asan", harness="h_httpmsg", payload=dict(script=cs_.text(), meta=cs_.meta)))
+                found.append((cs_, key, text))
                 st["mismatching_requests"] = st.get("mismatching_requests", 0) + 1
             if len(res.samples) < 3 and b == 0 and cs_.id % 211 == 5:
                 res.samples.append(dict(script=cs_.text()[:1800]))
+        conf.report(b, found)
+    st["unreproduced_on_rerun"] = conf.unreproduced
     for k, v in st.items():
         res.add_stat(k, v)
     res.add_stat("configurations", total)
@@ -263,6 +263,6 @@ def replay(info):
 REG = dict(category="exploration",
            text="Runtime monitor: random evhttp routing configurations (paths, virtual-host trees, aliases, '*' patterns, allowed-method masks) "
                 "receive generated requests over loopback; which callback ran (or which status came back) is compared with an independent reference "
-                "router (single percent-decoding, byte-wise path equality, case-insensitive glob). ~3.5e3 (quick) / ~2.1e5 (thorough) requests under ASan.",
+                "router (single percent-decoding, byte-wise path equality, case-insensitive glob). ~3.5e3 (quick) / ~1.8e5 (thorough) requests under ASan.",
            note="trusts the reference router in lib/checks/C30.py; precedence rules the docs leave open are calibrated to the tree and marked CALIBRATED",
            technique="reference-model oracle on observed callback id / status")
